@@ -194,6 +194,21 @@ def o_z0(case):
     if not np.all(same0):
         return fail("C19/z0-window", "the smoothed roughness length is not the median over the circular +-22 degree window of the observation's bin",
                     None, float(ref[~same0][0]), float(a[~same0][0]), 1e-12)
+    # the same argument arrays again after their contents changed in place (a processing loop that refills its buffers), and the arguments
+    # themselves left untouched by the call
+    keep = [np.array(x, copy=True) for x in (zm, ws, wd, us, L)]
+    estimateZ0(zm, ws, wd, us, L)
+    if not all(np.array_equal(x, y, equal_nan=True) for x, y in zip(keep, (zm, ws, wd, us, L))):
+        return fail("C19/z0-mutates-input", "estimateZ0 modifies its argument arrays", None, "unchanged", "changed", 0)
+    ws2, us2 = ws.copy(), us.copy()
+    estimateZ0(zm, ws2, wd, us2, L)
+    ws2 *= 1.07
+    us2[...] = np.roll(us2, 3)
+    a_in = estimateZ0(zm, ws2, wd, us2, L)
+    a_cp = estimateZ0(zm.copy(), ws2.copy(), np.array(wd, copy=True), us2.copy(), L.copy())
+    if not np.array_equal(a_in, a_cp, equal_nan=True):
+        return fail("C19/z0-inplace", "the estimate for argument arrays whose contents were changed in place is not the estimate of their current values", None,
+                    "equal", int(np.sum(~(np.isclose(a_in, a_cp, rtol=0, atol=0) | (np.isnan(a_in) & np.isnan(a_cp))))), 0)
     rho = case["rho"]
     b = estimateZ0(zm, ws, (wd + rho) % 360.0, us, L)
     same = np.isclose(a, b, rtol=1e-12, atol=0) | (np.isnan(a) & np.isnan(b))
